@@ -64,7 +64,11 @@ AuxOf(e, key) ==
 Classify(e, key) ==
     LET a0 == aux[key]
         a1 == AuxOf(e, key)
-    IN IF key.k = "RefineCand" THEN "RefinementIndependent"
+    IN IF key.k = "RefineCand" THEN
+            \* the low-order score digits carry the construction-order tie-break weights of minor.py:446-452, which
+            \* follow the order of the pooled allele list: same assignment + scores within 1e-5 is not decided here
+            (IF a0.resS = a1.resS /\ ScoreClose(a0.sc, a1.sc) THEN "UNDECIDED:RefinementScoreDigits"
+             ELSE "RefinementIndependent")
        ELSE IF a0.seed # a1.seed THEN
             (IF a0.resS = a1.resS /\ ScoreClose(a0.sc, a1.sc) THEN "ScoreBitsDependOnHashSeed"
              ELSE "DeterministicAcrossHashSeeds")
@@ -95,7 +99,7 @@ InnerFresh(e) == {i \in DOMAIN e.inner :
                     IN x.cmp /\ x.g \in DOMAIN f /\ x.g \notin tainted /\ f[x.g] # x.a}
 
 Clauses(e) ==    \* set of <<clause, part>>
-    (IF e.raised # "" THEN {<<"OpRaised", 0>>} ELSE {})
+    (IF e.raised # "" /\ Reads(e) \cap tainted = {} THEN {<<"OpRaised", 0>>} ELSE {})
     \cup (IF Changed(db, e.db) # {} \/ InnerBad(e, "db") # {} THEN {<<"DbUntouched", 0>>} ELSE {})
     \cup (IF Changed(ev, e.ev) # {} \/ InnerBad(e, "ev") # {} THEN {<<"EvUntouched", 0>>} ELSE {})
     \cup (IF InnerFresh(e) # {} THEN {<<"EqualsFreshLoad", 0>>} ELSE {})
